@@ -65,6 +65,9 @@ P03_Authority(w, ev, w2, h, r) ==
         /\ w2.acct[a].owner # w.acct[a].owner => (Call(ev) /\ ev.fn = "ChangeOwnerAddress" /\ ev.caller = w.acct[a].owner)
         /\ w2.acct[a].dev # w.acct[a].dev => (Call(ev) /\ ev.fn = "ClaimDeveloperRewards" /\ ev.caller = w.acct[a].owner)
         /\ w2.acct[a].uname # w.acct[a].uname => (Call(ev) /\ ev.fn = "SetUserName" /\ Known(ev.caller) /\ cfg.addrs[ev.caller].dns)
+\* a role operation of the system contract leaves exactly the role lists the reference operator says (histories of set / unset)
+P03_RoleOpsExact(w, ev, w2, h, r) ==
+  (Call(ev) /\ IsOk(ev) /\ ev.fn \in {"ESDTSetRole", "ESDTUnSetRole"} /\ Pred(r) /\ r.ok) => RolesMap(w2) = RolesMap(r.w)
 P03_Grant(w, ev, w2, h, r) ==
   (Call(ev) /\ ev.fn \in RoleGated /\ Pred(r) /\ r.ok) => IsOk(ev)
 P03_Denied(w, ev, w2, h, r) ==
@@ -95,6 +98,13 @@ P04_NoCreditWhilePaused(w, ev, w2, h, r) ==
       CoveredByPause(w, ShardOfA(a), k, w2.acct[a].esdt[k]) => Exempt(ev, a)
 P04_FlagOnly(w, ev, w2, h, r) ==
   (Call(ev) /\ ev.fn \in FlagFns) => (Bal(w2) = Bal(w) /\ MetaNZ(w2) = MetaNZ(w) /\ w2.msgs = w.msgs)
+\* the flag operations do what their name says, on THE system account of the executing shard / on the named account's entry
+P04_FlagTakesEffect(w, ev, w2, h, r) ==
+  (Call(ev) /\ IsOk(ev) /\ NArgs(ev) >= 1) =>
+    /\ (ev.fn \in {"ESDTPause", "ESDTUnPause"}) =>
+          LET p == w2.paused[ShStr(ev.sh)] IN Arg(ev,1).h \in DOMAIN p /\ (FlagSet(p[Arg(ev,1).h]) = (ev.fn = "ESDTPause"))
+    /\ (ev.fn = "ESDTFreeze" /\ ev.rcpt \in Accts(w2)) => (Arg(ev,1).h \in DOMAIN w2.acct[ev.rcpt].esdt /\ FlagSet(w2.acct[ev.rcpt].esdt[Arg(ev,1).h].props))
+    /\ (ev.fn = "ESDTUnFreeze" /\ ev.rcpt \in Accts(w2)) => (Arg(ev,1).h \in DOMAIN w2.acct[ev.rcpt].esdt => ~FlagSet(w2.acct[ev.rcpt].esdt[Arg(ev,1).h].props))
 P04_Restores(w, ev, w2, h, r) ==
   \* after the flag is cleared an operation behaves as the model without the flag says
   (Call(ev) /\ Pred(r) /\ r.ok /\ NArgs(ev) >= 1 /\ (\E i \in 1..NArgs(ev) : Arg(ev, i).h \in h.flagged)
